@@ -182,29 +182,40 @@ func why(v *rawValue) string {
 
 // exchange: a (client) syncs once with b (server) through the real service, remotediff adapter and
 // ldiff; afterwards both must hold the LWW merge of everything either had received.
-func (c *cases) exchange(a, b *sut) {
-	op := fmt.Sprintf("exch %d %d", a.mid, b.mid)
-	before := fmt.Sprintf("%d+%d", len(a.lastRows), len(b.lastRows))
+func (c *cases) exchange(a, b *sut) { c.exchangeF(a, b, fault{}) }
+
+// exchangeF: as exchange, with a storage fault armed on the SERVER's store for the duration of the
+// exchange (it can only hit the server's single SetRaw of the pushed values). The client still
+// receives and applies what it pulled; the server must keep index == store.
+func (c *cases) exchangeF(a, b *sut, f fault) {
+	op := fmt.Sprintf("exch %d %d %s", a.mid, b.mid, f.wire())
+	b.plan.arm(f.kind, f.k)
 	err := syncOnce(a.store, b.store)
+	fired := b.plan.fired
+	b.plan.arm("", 0)
 	a.ops = append(append(a.ops, "# other store:"), append(b.ops, op)...)
 	b.ops = a.ops
-	if err != nil {
+	if err != nil && !fired {
 		c.r.Violate(prop, "", "kv.exchange", "one sync exchange failed: "+err.Error(), a.ops)
 	}
 	union := append(append([]*rawValue(nil), a.received...), b.received...)
-	a.received, b.received = union, append([]*rawValue(nil), union...)
+	if !fired {
+		b.received = append([]*rawValue(nil), union...)
+	} else {
+		c.r.Count("exch.server-fault.fired")
+	}
+	a.received = union
 	a.cap.take()
 	b.cap.take()
 	c.observe(a, op, "")
 	c.observe(b, op, "")
 	model := c.r.Ask(op)
 	c.r.Check(prop, "kv.exchange", a.ops, model, a.lastState+" | "+b.lastState)
-	if a.lastState != b.lastState {
+	if !fired && a.lastState != b.lastState {
 		c.r.Violate(prop, "", "kv.exchange", "after one exchange the two stores differ: "+a.lastState+" vs "+b.lastState, a.ops)
 	}
 	c.r.Count("op.exch")
 	c.r.Count("exch.rows." + bucket(len(a.lastRows)))
-	_ = before
 }
 
 func bucket(n int) string {
